@@ -90,9 +90,16 @@ func genValueCase(r *rand.Rand) Case {
 	return Case{Mode: "value", Kind: kind, Feat: feat, Src: src, Margins: []int{pickMargin(r), pickMargin(r)}}
 }
 
+// codeFeats are the avoid-set features of the code mode.
+var codeFeats = []string{"string-body", "doc-escape", "doc-underscore", "case-keys"}
+
 func genCodeCase(r *rand.Rand, i int) Case {
 	kind := fw.Pick(r, []string{"defun", "defun", "defun", "lambda", "lambda", "defmacro", "call", "call"})
-	return buildCodeCase(r, kind, "", fmt.Sprint(i))
+	feat := ""
+	if kind != "call" && r.IntN(8) == 0 {
+		feat = fw.Pick(r, codeFeats)
+	}
+	return buildCodeCase(r, kind, feat, fmt.Sprint(i))
 }
 
 func buildCodeCase(r *rand.Rand, kind, feat, tag string) Case {
@@ -101,6 +108,22 @@ func buildCodeCase(r *rand.Rand, kind, feat, tag string) Case {
 	// a documentation string long enough to be re-flowed by the printer is
 	// compared modulo white space
 	o := codeOpts{backquote: r.IntN(4) == 0, longDoc: r.IntN(8) == 0}
+	switch {
+	case feat == "string-body":
+		o = codeOpts{stringBody: 2}
+	case feat == "doc-escape":
+		o = codeOpts{specialDoc: 1}
+	case feat == "doc-underscore":
+		o = codeOpts{specialDoc: 2}
+	case feat == "case-keys":
+		o = codeOpts{caseKeys: true}
+		if kind == "defmacro" {
+			kind = "defun"
+			c.Kind = kind
+		}
+	case kind != "call" && r.IntN(20) == 0:
+		o = codeOpts{stringBody: 1}
+	}
 	switch kind {
 	case "defun":
 		c.Name = fmt.Sprintf("k%s-%s", tag, fw.Pick(r, []string{"f", "compute", "a-rather-long-function-name", "fn"}))
@@ -210,7 +233,7 @@ func execValue(x *fw.Ctx, c Case) {
 	// what slip's own accessors say about an array, before and after
 	accessors := func(o slip.Object) string {
 		switch o.(type) {
-		case *slip.Vector, *slip.Array:
+		case *slip.Vector, *slip.Array, *slip.BitVector:
 		default:
 			return ""
 		}
